@@ -318,6 +318,26 @@ def dec_directhit(p, res):
     eq = len(body) > 2 and isinstance(body[2], ast.If) and src_of(body[2].test) in ('str1 == str2', 'str2 == str1') \
         and len(body[2].body) == 1 and isinstance(body[2].body[0], ast.Return) and p.try_const(cs, body[2].body[0].value) == 1
     n_lower = sum(1 for n in cs.body_nodes() if isinstance(n, ast.Call) and isinstance(n.func, ast.Attribute) and n.func.attr in ('lower', 'casefold'))
+    # dataflow: no use of a string parameter other than as the receiver of .lower() before it is re-bound to its lower-cased form
+    raw_use = None
+    pending = set(cs.params[:2])
+    for st in body:
+        for n in ast.walk(st):
+            if isinstance(n, ast.Name) and isinstance(n.ctx, ast.Load) and n.id in pending:
+                par = p.parents(cs).get(n)
+                is_recv = isinstance(par, ast.Attribute) and par.attr in ('lower', 'casefold') and isinstance(p.parents(cs).get(par), ast.Call)
+                if not is_recv and raw_use is None:
+                    raw_use = (n, st)
+        if isinstance(st, ast.Assign) and len(st.targets) == 1 and isinstance(st.targets[0], ast.Name) and st.targets[0].id in pending \
+                and isinstance(st.value, ast.Call) and isinstance(st.value.func, ast.Attribute) and st.value.func.attr in ('lower', 'casefold') \
+                and src_of(st.value.func.value) == st.targets[0].id:
+            pending.discard(st.targets[0].id)
+        elif not isinstance(st, ast.Assign):
+            if pending and any(isinstance(n, ast.Name) and n.id in pending for n in ast.walk(st)):
+                pass
+    if raw_use is not None and n_lower:
+        res.bad(F('DEC-DIRECTHIT', cs, raw_use[1], src_of(raw_use[1]).split('\n')[0],
+                  'matching is case-insensitive: `%s` is used here before it has been lower-cased (an abbreviation typed in another case is compared as written)' % raw_use[0].id))
     if lowered:
         res.ok('both strings are lower-cased first')
     elif n_lower == 0:
